@@ -13,7 +13,7 @@ RULE = ("(A) the four free conversion functions on raw dicts (unsorted / repeate
         "array). Dyadic coefficients compared exactly as multilinear polynomials; a real-coefficient sub-class is "
         "compared with tolerance 1e-9*sum|coef|. Non-trivial = source with >= 2 terms and >= 2 variables; "
         "distinct = digest of (function, source type, source terms)"
-        " Also: objects with an earlier life (clear() or *= 0, then refilled), long raw spellings of monomials (repeated boolean labels, inserted spin pairs), matrix_to_qubo on matrices in tiny units and nearly symmetric ones, every calling form of set_mapping, terms added after a user mapping, spin flag independent of the solution's form, second call after the caller edited the first result.")
+        " Also: objects with an earlier life (clear() or *= 0, then refilled), long raw spellings of monomials (repeated boolean labels, inserted spin pairs), matrix_to_qubo on matrices in tiny units and nearly symmetric ones, every calling form of set_mapping, terms added after a user mapping, spin flag independent of the solution's form, second call after the caller edited the first result, labelled sources with a cancelled variable given to the conversion functions and the result used as a model of its own (mapping, exports, convert_solution), solutions longer than the model, boolean and small-integer matrices.")
 TIERS = {"quick": {"shards": 8, "cases": 6000}, "thorough": {"shards": 16, "cases": 50000}}
 FLOOR_BASE = {"quick": 500, "thorough": 20000}    # case counts the floors below were calibrated for; the launcher scales them
 FREE = {"pubo_to_puso": ("bool", False), "puso_to_pubo": ("spin", False),
@@ -29,7 +29,7 @@ def FLOORS(tier):
     q = tier == "quick"
     f = {"convert_solution-checks": 3000 if q else 10 ** 5, "export:Q": 60, "export:hJ": 60,
          "export:matrix_to_qubo": 60, "export:qubo_to_matrix": 100, "real-coefficients": 100,
-         "raw-repeated-labels": 50, "raw-long-spellings": 100, "cleared-and-refilled": 200, "user-mapping:one-shot-iterator": 40, "convert_solution:numpy-scalar-entries": 300, "derived-from-common-ancestor": 100, "matrix_to_qubo:tiny-units": 10, "matrix_to_qubo:nearly-symmetric": 10, "all-ones-solution": 30, "user-mapping:set_mapping": 60, "user-mapping:set_reverse_mapping": 60,
+         "raw-repeated-labels": 50, "raw-long-spellings": 100, "cleared-and-refilled": 200, "user-mapping:one-shot-iterator": 40, "convert_solution:numpy-scalar-entries": 300, "derived-from-common-ancestor": 100, "matrix_to_qubo:tiny-units": 10, "matrix_to_qubo:nearly-symmetric": 10, "all-ones-solution": 30, "matrix_to_qubo:narrow-dtype": 25, "free:stale-labelled-source": 200, "free:result-used-as-a-model": 300, "convert_solution:longer-than-the-model": 2500, "user-mapping:set_mapping": 60, "user-mapping:set_reverse_mapping": 60,
          "export-before-relabelling": 80, "term-added-after-user-mapping": 40,
          "second-call-after-result-edited": 300, "convert_solution:flag-independent-of-form": 300,
          "user-mapping:positional+keywords": 10}
@@ -92,7 +92,28 @@ def case_free(ctx, rng):
     if d2 and raw and kind == "spin" and any(len({x for x in k if k.count(x) % 2}) > 2 for k in terms):
         return
     m = dict(terms) if tn == "dict" else gen.model_of(getattr(L, tn), terms)
-    w = {"function": fn, "source_type": tn, "terms": terms}
+    stale_src = False
+    if tn != "dict" and not mat and rng.random() < 0.3:
+        # a labelled source with a history: a variable registered first (or in the middle) and cancelled since, not refreshed
+        m = getattr(L, tn)()
+        gone = "gone_var" if all(isinstance(x, str) for x in labs) else (("gone", 0) if not all(isinstance(x, int) for x in labs) else max(labs) + 3)
+        items_ = list(terms.items())
+        cut = rng.randint(0, max(0, len(items_) - 1))
+        try:
+            for k_, v_ in items_[:cut]:
+                m[k_] += v_
+            m[(gone,)] += 2
+            for k_, v_ in items_[cut:]:
+                m[k_] += v_
+            if rng.random() < 0.5:
+                m[(gone,)] -= 2
+            else:
+                m[(gone,)] = 0
+            stale_src = True
+            ctx.cat("free:stale-labelled-source")
+        except KeyError:
+            m = gen.model_of(getattr(L, tn), terms)
+    w = {"function": fn, "source_type": tn, "terms": terms, "stale_source": stale_src}
     snap = dict(m)
     ok, r = ctx.call(fn, getattr(L.utils, fn), m, _w=w)
     if not ok:
@@ -129,6 +150,16 @@ def case_free(ctx, rng):
     if len(src.d) >= 2 and len(src.vars()) >= 2:
         ctx.nontrivial((fn, tn, sorted(terms.items(), key=repr)))
     ctx.sample({"function": fn, "source_type": tn, "terms": terms, "result": dict(r)}, limit=2)
+    if hasattr(r, "mapping") and tn != "dict" and not mat and not real and rng.random() < 0.5:
+        # the result is a model in its own right: its enumeration, exports and convert_solution must work like those of
+        # a model built from its terms
+        ctx.cat("free:result-used-as-a-model")
+        mpn = r.mapping
+        if {v: k for k, v in mpn.items()} != r.reverse_mapping or set(mpn.values()) != set(range(len(mpn))):
+            ctx.violation("%s:result-mapping-not-a-bijection-onto-range" % fn, "result mapping %r / reverse_mapping %r" % (mpn, r.reverse_mapping), w)
+            return
+        check_exports(ctx, rng, r, type(r).__name__, tk)
+        return
     if rng.random() < 0.3:
         # the caller edits what it got back and converts the same source again: the second result must be as good as the first
         first = dict(r)
@@ -241,6 +272,12 @@ def case_method(ctx, rng):
             ctx.violation("set_mapping:mapping-not-a-bijection-onto-range", "after a user mapping (and later edits), mapping %r / reverse_mapping %r" % (mpn, M.reverse_mapping),
                           {"type": tn, "terms": dict(M)})
             return
+    check_exports(ctx, rng, M, tn, kind)
+
+
+def check_exports(ctx, rng, M, tn, kind):
+    """M is a labelled model object: one export of it is the same function under M.mapping, and convert_solution
+    carries solutions of the export back to assignments of M with the same value"""
     src = ref.from_raw(kind, dict(M))
     forms = ["qubo", "quso", "pubo", "puso", "enum"] if src.degree() <= 2 else \
         [("pubo" if True else ""), "puso", "enum"]
@@ -293,6 +330,11 @@ def case_method(ctx, rng):
                 ty_ = rng.choice([np.uint8, np.int64, np.uint64] if sform == "bool" else [np.int8, np.int64])
                 s = [ty_(v) for v in s]
                 ctx.cat("convert_solution:numpy-scalar-entries")
+            if rng.random() < 0.2:
+                # a solution with more entries than the model has variables (e.g. of a larger model that embeds this one):
+                # the extra entries are ignored as values, but they are part of what tells the solution's form
+                s = s + [rng.choice((1, -1) if sform == "spin" else (0, 1)) for _ in range(rng.randint(1, 2))]
+                ctx.cat("convert_solution:longer-than-the-model")
             sol = s if cont == "list" else (tuple(s) if cont == "tuple" else dict(enumerate(s)))
             flag = sform == "spin"
             if any(v in (0, -1) for v in s) and rng.random() < 0.3:
@@ -362,7 +404,15 @@ def case_export(ctx, rng):
     if which == "matrix_to_qubo":
         n = rng.randint(1, 5)
         mat = [[rng.choice([0, 0, 1, -2, 0.5, 3]) for _ in range(n)] for _ in range(n)]
-        style = rng.choice(["plain", "plain", "tiny-units", "nearly-symmetric"])
+        style = rng.choice(["plain", "plain", "tiny-units", "nearly-symmetric", "narrow-dtype"])
+        if style == "narrow-dtype":
+            # an adjacency / small-integer matrix: booleans (True is the number 1) or int8 / uint8 entries whose pair sums fit
+            # (int8 / uint8 arrays whose sums leave the dtype wrap on the unchanged tree as numpy arithmetic does; not demanded)
+            ty_ = rng.choice([bool, bool, np.int8, np.uint8])
+            if ty_ is bool:
+                mat = [[rng.random() < 0.6 for _ in range(n)] for _ in range(n)]
+            else:
+                mat = [[int(rng.choice([0, 10, 30, 63, 1])) for _ in range(n)] for _ in range(n)]
         if style == "tiny-units":
             # the same kind of matrix in small units (all entries ~1e-9): nothing about it is "approximately symmetric"
             mat = [[v * 1e-9 for v in row] for row in mat]
@@ -373,6 +423,9 @@ def case_export(ctx, rng):
                     mat[i][j] = mat[j][i] * (1 + rng.choice([1e-6, -3e-6, 1e-7, 0]))
         ctx.cat("matrix_to_qubo:" + style)
         arg = np.array(mat) if rng.random() < 0.5 else mat
+        if style == "narrow-dtype":
+            arg = np.array(mat, dtype=ty_) if rng.random() < 0.6 else mat
+            mat = [[int(v) for v in row] for row in mat]
         w = {"export": which, "matrix": mat}
         ok, Q = ctx.call(which, L.utils.matrix_to_qubo, arg, _w=w)
         if not ok:
